@@ -794,4 +794,7 @@ def run(P, R, tier):
     R.floor('C13.CUR.2', 1, 'the dotted-quad helper called on a saved start')
     R.floor('C13.TAB.4', 4, 'full-range acceptance: embedded copy, two prefix bounds, mask residue')
     R.floor('C13.CUR.1', 2, 'the parser and its helper scan the input with an index cursor')
+    # a rule without an address item has prefix length 0 ("everybody"): the table its entry lives in starts out zeroed
+    from . import c11 as _c11
+    _c11.zeroed_entries(P, R, P.need_fn('iauth_class_conf_changed'), 'C13.INIT.3')
     return EXPLANATION, ASSUMPTIONS, {'functions_analysed': [f.name for f in fns], 'subscripts': n_idx, 'block_copies': n_cp, 'shifts': n_sh, 'cursors': n}
